@@ -418,7 +418,7 @@ def trigger_items(tier):
             add("exactly_true", n, [c], 0, 1)
         add("element_lic", n, [1], 0, 2 if n == 2 else 1)
     add("lexicographic_leq", 4, [], 0, 1)
-    for n in (2, 3, 4):       # the circuit algorithms: no-failure half, on their explicit definitions
+    for n in ((2, 3, 4) if tier == "quick" else (2, 3, 4, 5)):       # the circuit algorithms: no-failure half, on their explicit definitions
         add("no_sub_cycle", n, [], 0, n - 1)
         add("scc", n, [], 0, n - 1)
     add("element_liv", 3, [], 0, 2)
